@@ -22,6 +22,8 @@ import (
 	"path/filepath"
 	"sort"
 	"strings"
+	"sync/atomic"
+	"time"
 
 	"github.com/antchfx/xmlquery"
 	"github.com/antchfx/xpath"
@@ -35,6 +37,8 @@ const rule = "the document has at least one attribute and the operation sequence
 	"document has at least one attribute and the expression uses the attribute axis, a sibling/following/preceding axis or a positional predicate; " +
 	"for query sequences: at least one query of the sequence selects a node"
 
+var progress int64 // bumped once per document / sequence / replay (watchdog)
+
 type runner struct {
 	o   *vh.Opts
 	sum *vh.Summary
@@ -47,7 +51,6 @@ func (rn *runner) runOpsCase(d *docCtx, c *opsCase, verbose bool) *opsOutcome {
 		rn.sum.Fail("replay: start node not in document", c, nil)
 		return nil
 	}
-	vh.Current(rn.o, c)
 	out := runOps(d, k, c.Ops, c.Repaired)
 	if verbose {
 		for i := range out.xres {
@@ -58,8 +61,11 @@ func (rn *runner) runOpsCase(d *docCtx, c *opsCase, verbose bool) *opsOutcome {
 		fmt.Println("sequence leaves the scope of the reference (MoveToRoot on an attribute position, Q2): not evaluated")
 		return out
 	}
+	if out.hang {
+		rn.sum.Fail(out.failWhat, c, nil)
+		return out
+	}
 	if out.failAt >= 0 {
-		vh.Current(rn.o, c)
 		fc := *c
 		fc.Ops = shrinkOps(d, k, c.Ops[:out.failAt+1], out.failWhat, c.Repaired)
 		o2 := runOps(d, k, fc.Ops, c.Repaired)
@@ -72,7 +78,6 @@ func (rn *runner) runOpsCase(d *docCtx, c *opsCase, verbose bool) *opsOutcome {
 }
 
 func (rn *runner) runExprCase(d *docCtx, c *exprCase, verbose bool) *exprOutcome {
-	vh.Current(rn.o, c)
 	out := evalExpr(d, c)
 	if verbose {
 		b, _ := json.MarshalIndent(out, "", " ")
@@ -86,8 +91,11 @@ func (rn *runner) runExprCase(d *docCtx, c *exprCase, verbose bool) *exprOutcome
 
 // failDoc reports a document on which the two trees differ, with the xpath-level witness if the
 // probes found one.
-func (rn *runner) failDoc(text string, err error) {
+func (rn *runner) failDoc(text string, pre *poolPrelude, err error) {
 	c := map[string]interface{}{"kind": "doc", "doc": text}
+	if pre != nil {
+		c["earlier_document"] = pre
+	}
 	if se, ok := err.(*shapeErr); ok && se.probe != nil {
 		rn.sum.Fail("expression values differ (the node tree and the reference DOM of this document differ in shape)",
 			c, map[string]interface{}{"expr": se.probe.Expr, "idr_value": se.probe.IdrVal, "reference_value": se.probe.RefVal, "shape": se.msg})
@@ -111,20 +119,26 @@ func (rn *runner) replayFile(p string, verbose bool) {
 		raw = wrap.Case
 	}
 	var kind struct {
-		Kind string `json:"kind"`
-		Doc  string `json:"doc"`
+		Kind string       `json:"kind"`
+		Doc  string       `json:"doc"`
+		Pool *poolPrelude `json:"earlier_document"`
 	}
 	if err := json.Unmarshal(raw, &kind); err != nil {
 		rn.sum.Fail("replay file malformed", p, err.Error())
 		return
 	}
-	d, err := parseBoth(kind.Doc)
+	vh.Current(rn.o, raw)
+	atomic.AddInt64(&progress, 1)
+	d, err := parseBoth(kind.Doc, kind.Pool)
 	if err != nil {
-		rn.failDoc(kind.Doc, err)
+		rn.failDoc(kind.Doc, kind.Pool, err)
 		if verbose {
 			fmt.Println(err)
 		}
 		return
+	}
+	if d.rootErr != nil {
+		rn.failDoc(kind.Doc, kind.Pool, d.rootErr)
 	}
 	rn.sum.Evaluations++
 	switch kind.Kind {
@@ -140,6 +154,16 @@ func (rn *runner) replayFile(p string, verbose bool) {
 		var c seqCase
 		_ = json.Unmarshal(raw, &c)
 		rn.runSeq(d, &c, verbose)
+	case "doc":
+		// a whole document (reported when the trees differ, or when the process died while this
+		// document was being worked on): the fixed battery of root probes
+		rn.runOpsCase(d, &opsCase{Kind: "ops", Doc: kind.Doc, Start: []int{}, Ops: rootProbeOps, Pool: kind.Pool}, verbose)
+		for _, ex := range rootProbeExprs {
+			if hung >= 3 {
+				break
+			}
+			rn.runExprCase(d, &exprCase{Kind: "expr", Doc: kind.Doc, Expr: ex, Start: []int{}, Pool: kind.Pool}, verbose)
+		}
 	}
 }
 
@@ -172,7 +196,7 @@ func referenceQuirks() map[string]string {
 		conf(strings.Join(sel(xmlquery.CreateXPathNavigator(raw), "//text()"), ",") == "t=,u=")
 	q["Q0b raw xmlquery.Parse: a DeclarationNode is synthesised as first child of the document (count(//node()) is one more)"] =
 		conf(raw.FirstChild != nil && raw.FirstChild.Type == xmlquery.DeclarationNode)
-	d, err := parseBoth(text)
+	d, err := parseBoth(text, nil)
 	if err != nil {
 		q["setup"] = err.Error()
 		return q
@@ -190,6 +214,21 @@ func referenceQuirks() map[string]string {
 func main() {
 	only := flag.String("only", "", "run only part (a) \"ops\" or part (b) \"expr\" (experiments; bin/check runs both)")
 	o := vh.ParseOpts()
+	idr.VerifSetNodeCaching(true) // production setting: nodes come from and return to the pool
+	// watchdog: a tree with a cycle (e.g. a recycled node that kept its Parent) makes the library,
+	// or the walk to the root, spin; the marker written by vh.Current names the document
+	go func() {
+		last := int64(-1)
+		for {
+			time.Sleep(45 * time.Second)
+			now := atomic.LoadInt64(&progress)
+			if now == last {
+				fmt.Fprintln(os.Stderr, "c11: no progress for 45 s (hang inside the library or a cyclic tree); see current.json")
+				os.Exit(3)
+			}
+			last = now
+		}
+	}()
 	sum := vh.NewSummary("C11", o, rule)
 	cw := vh.NewCaseWriter(o, "c11", "Base.Tree Model.Nav", "ncase", "check_case")
 	cw.PerFile = 25
@@ -218,12 +257,20 @@ func main() {
 	r := vh.NewRng(o.Seed)
 	// ---- (c) sequences of string-API queries through the expression cache ----
 	nseq := o.Count(120, 4000)
-	for si := 0; si < nseq && *only == ""; si++ {
+	for si := 0; si < nseq && *only == "" && hung < 3; si++ {
 		c := genSeqCase(r, si)
-		d, err := parseBoth(c.Doc)
+		if si%5 != 0 {
+			c.Pool = genPrelude(r)
+		}
+		vh.Current(o, c)
+		atomic.AddInt64(&progress, 1)
+		d, err := parseBoth(c.Doc, c.Pool)
 		if err != nil {
-			rn.failDoc(c.Doc, err)
+			rn.failDoc(c.Doc, c.Pool, err)
 			continue
+		}
+		if d.rootErr != nil {
+			rn.failDoc(c.Doc, c.Pool, d.rootErr)
 		}
 		hit := rn.runSeq(d, c, false)
 		sum.Count("seq|"+c.Doc+"|"+strings.Join(c.Exprs, "|"), hit > 0)
@@ -237,15 +284,27 @@ func main() {
 		}
 	}
 
-	ndocs := o.Count(360, 12000)
+	ndocs := o.Count(320, 12000)
 	const seqPerDoc, coqRunsPerDoc, exprPerDoc = 10, 3, 22
 	exprFeat := map[string]bool{}
 	for di := 0; di < ndocs; di++ {
 		text, groot, feat := genDoc(r)
-		d, err := parseBoth(text)
+		// four documents out of five are read after an earlier document of this process was
+		// streamed and released (node pool filled with its nodes)
+		var pre *poolPrelude
+		if di%5 != 0 {
+			pre = genPrelude(r)
+			sum.Hist("doc:after-an-earlier-document(pool)")
+		}
+		vh.Current(o, map[string]interface{}{"kind": "doc", "doc": text, "earlier_document": pre})
+		atomic.AddInt64(&progress, 1)
+		d, err := parseBoth(text, pre)
 		if err != nil {
-			rn.failDoc(text, err)
+			rn.failDoc(text, pre, err)
 			continue
+		}
+		if d.rootErr != nil {
+			rn.failDoc(text, pre, d.rootErr)
 		}
 		ge, ga := groot.counts()
 		ne := 0
@@ -267,14 +326,21 @@ func main() {
 
 		// ---- (a) operation level ----
 		var runs []string
-		for s := 0; s < seqPerDoc && *only != "expr"; s++ {
+		for s := 0; s < seqPerDoc && *only != "expr" && hung < 3; s++ {
 			k := 0
 			if r.Chance(0.6) {
 				k = r.Pick(len(d.xnodes))
 			}
 			fx := s%3 == 2 // every third sequence runs against the repaired reference (may do Q2)
-			ops := genOps(r, d, k, fx)
-			c := &opsCase{Kind: "ops", Doc: text, Start: d.paths[k], Ops: ops, Repaired: fx}
+			if s == 0 {
+				k = 0 // the first sequence starts at the document node with the fixed root probes
+			}
+			var prefix []opRec
+			if s == 0 {
+				prefix = rootProbeOps
+			}
+			ops := genOps(r, d, k, fx, prefix)
+			c := &opsCase{Kind: "ops", Doc: text, Start: d.paths[k], Ops: ops, Repaired: fx, Pool: pre}
 			if fx {
 				sum.Hist("ops:against-repaired-reference")
 			}
@@ -289,7 +355,7 @@ func main() {
 			if out.quirkQ1 > 0 {
 				sum.Hist("ops:with-Value-on-document-node(Q1)")
 			}
-			if s < coqRunsPerDoc && out.failAt < 0 {
+			if s < coqRunsPerDoc && out.failAt < 0 && !out.outOfScope {
 				runs = append(runs, coqRun(d.paths[k], ops, out, fx))
 			}
 			if di < 2 && s == 0 {
@@ -297,17 +363,39 @@ func main() {
 					"first_ops": ops[:min(8, len(ops))], "idr_answers": out.ires[:min(8, len(out.ires))]})
 			}
 		}
-		var sb strings.Builder
-		sb.WriteString("(mkCase ")
-		coqDNode(&sb, d.xdoc)
-		sb.WriteString("\n  " + vh.CoqTree(d.idoc) + "\n  [")
-		sb.WriteString(strings.Join(runs, ";\n  "))
-		sb.WriteString("])")
-		cw.Add(sb.String(), map[string]interface{}{"kind": "ops-model", "doc": text, "runs": len(runs)})
+		if di%3 != 2 || o.Tier == "thorough" { // quick tier: two documents out of three are replayed through the Coq model
+			var sb strings.Builder
+			sb.WriteString("(mkCase ")
+			coqDNode(&sb, d.xdoc)
+			sb.WriteString("\n  " + vh.CoqTree(d.idoc) + "\n  [")
+			sb.WriteString(strings.Join(runs, ";\n  "))
+			sb.WriteString("])")
+			cw.Add(sb.String(), map[string]interface{}{"kind": "ops-model", "doc": text, "earlier_document": pre, "runs": len(runs)})
+		}
 
 		// ---- (b) end to end ----
+		// fixed probes: the sibling / preceding / following axes from the document node and from
+		// the root element (a recycled document node must not remember earlier neighbours)
+		rootElem := 0
+		for k, n := range d.xnodes {
+			if n.Type == xmlquery.ElementNode {
+				rootElem = k
+				break
+			}
+		}
+		for _, ex := range rootProbeExprs {
+			if *only == "ops" || hung >= 3 {
+				break
+			}
+			for _, k := range []int{0, rootElem} {
+				c := &exprCase{Kind: "expr", Doc: text, Expr: ex, Start: d.paths[k], Pool: pre}
+				rn.runExprCase(d, c, false)
+				sum.Count("expr|"+text+"|"+ex+"|"+pathLabel(c.Start), hasAttr && exprTouches(ex))
+				sum.Hist("expr:root-probes")
+			}
+		}
 		g := newExprGen(r, d)
-		for e := 0; e < exprPerDoc && *only != "ops"; e++ {
+		for e := 0; e < exprPerDoc && *only != "ops" && hung < 3; e++ {
 			scalar := r.Chance(0.2)
 			k, kind := 0, kRoot
 			if len(d.xnodes) > 1 && r.Chance(0.5) {
@@ -349,7 +437,7 @@ func main() {
 				}
 			}
 			for _, k := range starts {
-				c := &exprCase{Kind: "expr", Doc: text, Expr: ex, Start: d.paths[k], Scalar: scalar}
+				c := &exprCase{Kind: "expr", Doc: text, Expr: ex, Start: d.paths[k], Scalar: scalar, Pool: pre}
 				out := rn.runExprCase(d, c, false)
 				sum.Count("expr|"+text+"|"+ex+"|"+pathLabel(c.Start), hasAttr && exprTouches(ex))
 				sum.Hist("expr:evaluations")
@@ -386,7 +474,7 @@ func main() {
 			exprFeat[f] = true
 			sum.Hist("expr-uses:" + f)
 		}
-		if len(sum.Failures) >= 20 {
+		if len(sum.Failures) >= 20 || hung >= 3 {
 			break
 		}
 	}
